@@ -28,6 +28,9 @@ func (s specLoc) real() poly.Location {
 	for _, x := range s.Subs {
 		l.SubLocations = append(l.SubLocations, x.real())
 	}
+	if len(s.Subs) == 0 && (s.Start+s.End)%2 == 0 {
+		l.SubLocations = []poly.Location{} // no operands, spelled as an empty list (JSON "sub_locations": [], make(.., 0, n))
+	}
 	return l
 }
 
